@@ -273,6 +273,7 @@ def read_line(p, idx):
     return None
 
 
+APPLIES_RE = re.compile(r'<<"APPLIES", "([^"]+)", "([^"]*)">>')
 DRIFT_RE = re.compile(r'<<"DRIFT", "([^"]+)", "([^"]*)">>')
 KF_RE = re.compile(r'<<"KNOWN-FINDING", "([^"]+)", "([^"]+)", "([^"]*)">>')
 B_RE = re.compile(r"^/\\ b = (\d+)\s*$")
@@ -358,6 +359,8 @@ def tlc_validate(d, trace_path, invariants, timeout=900, skip=(), name="Trace", 
         res["states"] += dist
         res["transitions"] += gen
         text = open(outp, errors="replace").read()
+        for mk in APPLIES_RE.finditer(text):
+            res.setdefault("applies", set()).add(mk.group(2))
         for mk in DRIFT_RE.finditer(text):
             res.setdefault("drift", {}).setdefault(mk.group(1), []).append(mk.group(2))
         for mk in KF_RE.finditer(text):
